@@ -12,6 +12,7 @@ import (
 // Registry.ReadTagsFrom, on a fresh registry and on one already holding
 // entries and tags - a value or an error, never a panic.
 func VP_C08_registry() {
+	vp.NoSpin(300)                  // bounded input: no loop of the decoder legitimately runs 300 times
 	n := vp.Choice(8 + 2*vp.Tier()) // 7 bytes reach a five-byte length after one tag header
 	b := vp.Bytes(n)
 	vp.SizeBound(n + 2)
